@@ -354,7 +354,42 @@ def c03(cx):
                   ASSUME_CONN)
 
 
-PROPS = {"C03": c03, "C02": c02, "C09": c09, "C14": c14, "C16": c16, "C20": c20, "C10": c10, "C19": c19, "C12": c12, "C01": c01, "C13": c13, "C05": c05, "C06": c06, "C07": c07, "C08": c08, "C17": c17}
+def c18(cx):
+    build_harness(cx)
+    thorough = cx.tier == "thorough"
+    files = []
+    # (a) the allocation window of the reader: windows handed out are never written again
+    b1 = model_check(cx, "MC_PgReader", consts=({"MaxMsgs": 6} if thorough else {"MaxMsgs": 5}))
+    subsample(cx, b1, 80000 if thorough else 8000)
+    sample_behaviours(cx, b1, 1)
+    trace, crash = play(cx, b1, "reader-frames", cmd="reader")
+    rejected = [] if crash else validate(cx, trace, "Trace_PgReader")
+    judge(cx, b1, trace, rejected, crash, "Trace_PgReader", play_cmd="reader")
+    files.append(b1)
+    # (b) the server: callbacks retain query texts, parameter values, client parameters, passwords
+    g = gen_random(cx, "C18", 6000 if thorough else 400)
+    files.append(g)
+    sample_behaviours(cx, g, 1)
+    trace, crash = play(cx, g, "retain", extra=["-proj", "C18"])
+    rejected = [] if crash else validate(cx, trace, "Trace_PgConn")
+    judge(cx, g, trace, rejected, crash, "Trace_PgConn", play_extra=["-proj", "C18"])
+    count_distinct(cx, *files)
+    cx.cov["trusted_base"] = TB_CONN
+    return finish(cx, "model_checking",
+                  "(a) PgReader's allocation machine (window advances into spare capacity or a fresh allocation of "
+                  "max(size, 4096); oversized messages skipped in chunks): TLC enumerates every sequence of up to MaxMsgs "
+                  "message sizes around the granule and the limit and checks that no window ever overlaps a body handed out "
+                  "earlier; each sequence is replayed on the real buffer.Reader where the harness keeps every body it was "
+                  "given (and a copy) and reports capacity, allocation identity and intactness after every operation, which "
+                  "TLC validates against the same machine. (b) on the real server the scripted callbacks retain every query "
+                  "text, parameter value, client parameter and password (the very strings and slices they were handed) with "
+                  "private copies; sessions then continue with padded queries, Bind parameters, skipped oversized messages "
+                  "and COPY data of sizes around 4096 and the limit; every later callback and the end of the run report "
+                  "whether everything retained is still intact, which the specification requires.",
+                  ASSUME_CONN)
+
+
+PROPS = {"C18": c18, "C03": c03, "C02": c02, "C09": c09, "C14": c14, "C16": c16, "C20": c20, "C10": c10, "C19": c19, "C12": c12, "C01": c01, "C13": c13, "C05": c05, "C06": c06, "C07": c07, "C08": c08, "C17": c17}
 
 
 def replay(cx, path):
